@@ -579,8 +579,14 @@ def program_ops(tier):
     return progs
 
 
+_PROGRAMS = {}
+
+
 def programs(tier):
-    return [{"id": f"c10_{name}", "family": FAM, "bp": {"ops": ops}, "requests": []} for name, ops in program_ops(tier)]
+    if tier not in _PROGRAMS:
+        _PROGRAMS[tier] = json.dumps([{"id": f"c10_{name}", "family": FAM, "bp": {"ops": ops}, "requests": []}
+                                      for name, ops in program_ops(tier)])
+    return json.loads(_PROGRAMS[tier])
 
 
 # --------------------------------------------------------------------------------------------------
@@ -1105,6 +1111,14 @@ def oracle_c10(obs, rep, tier):
     if o.get("plugin_sha") != plugin_sha():
         L.log("c10: cached observations were made by another version of the plug-in; observing again")
         o = observe(tier)
+        try:  # lib_e2e.tree_hash does not cover plug-ins: refresh the orchestrator's cache entry ourselves
+            cache = f"{L.OBS_ROOT}/{L.tree_hash()}/{FAM}-{tier}.json"
+            if os.path.exists(cache):
+                with open(cache + ".tmp", "w") as f:
+                    json.dump(o, f)
+                os.replace(cache + ".tmp", cache)
+        except OSError:
+            pass
     canon = o["canon"]
     hist = collections.Counter()
     per_key = {}
